@@ -30,12 +30,16 @@ RYaw(k)   == <<<<Cos4(k), Sin4(k), 0>>, <<0 - Sin4(k), Cos4(k), 0>>, <<0, 0, 1>>
 RPitch(k) == <<<<Cos4(k), 0, 0 - Sin4(k)>>, <<0, 1, 0>>, <<Sin4(k), 0, Cos4(k)>>>>
 RRoll(k)  == <<<<1, 0, 0>>, <<0, Cos4(k), Sin4(k)>>, <<0, 0 - Sin4(k), Cos4(k)>>>>
 \* Euler angle <<pitch, yaw, roll>>: roll is applied first, then pitch, then yaw.
-FromAngle(a) == MatMul(MatMul(RRoll(a[3]), RPitch(a[1])), RYaw(a[2]))
+FromAngleDef(a) == MatMul(MatMul(RRoll(a[3]), RPitch(a[1])), RYaw(a[2]))
+\* (tables: TLC evaluates a constant definition once)
+AllAngles == (0..3) \X (0..3) \X (0..3)
+FromTable == [a \in AllAngles |-> FromAngleDef(a)]
+FromAngle(a) == FromTable[<<a[1] % 4, a[2] % 4, a[3] % 4>>]
 \* The Euler angles a matrix is written back as: pitch within [-90, 90], and
 \* no roll when looking straight up/down (gimbal lock).  24 canonical triples.
-CanonAngles == {<<p, y, r>> : p \in {0, 1, 3}, y \in 0..3, r \in 0..3} \cap
-               {a \in (0..3) \X (0..3) \X (0..3) : a[1] # 0 => a[3] = 0}
-ToAngle(M) == CHOOSE a \in CanonAngles : FromAngle(a) = M
+CanonAngles == {a \in AllAngles : a[1] \in {0, 1, 3} /\ (a[1] # 0 => a[3] = 0)}
+CanonTable == {<<a, FromTable[a]>> : a \in CanonAngles}
+ToAngle(M) == (CHOOSE p \in CanonTable : p[2] = M)[1]
 Rotations == {FromAngle(a) : a \in CanonAngles}
 AngEq(a, b) == FromAngle(a) = FromAngle(b)
 QAng(a) == <<Q(a[1]), Q(a[2]), Q(a[3])>>
@@ -173,7 +177,7 @@ KeyAgrees(t, e, r) ==
     CASE t \in TextTags -> e = r
       [] t \in {"pos", "dir", "axis2"} -> e = r
       [] t = "ang" -> e = FromAngle(r)
-      [] t = "sides" -> e = Range(r) /\ Len(r) = Cardinality(e)
+      [] t = "sides" -> e = Range(r)
       [] OTHER -> TRUE
 
 \* orientation of an entity: its angles, with pitch and yaw overridden by the separate
